@@ -1203,8 +1203,11 @@ class PrevProcCloser(threading.Thread):
                 # GNU Parallel, which has a long startup time.
                 pass
             elif pipeline._prev_procs_done():
-                pipeline._close_prev_procs()
-                proc.prevs_are_closed = True
+                # _prev_procs_done() has closed the writer ends, which is
+                # what lets the last command see EOF.  The reader ends stay
+                # open until the last command is over (_end closes them): it
+                # may be an alias running on a thread of this process that
+                # has not started to read yet.
                 break
             if not check_prev_done:
                 # if we are piping...
